@@ -33,7 +33,7 @@ CONSTANTS MaxN, Names, KindSet
 DefKinds == {"def", "adef", "cm", "sm", "prop", "setter"}          \* function definitions
 ClassKinds == {"class", "exc"}
 FlowKinds == {"if", "ifmain", "try", "with", "for", "while"}
-LeafKinds == {"assign", "oldcm", "oldsm"}                            \* x = <literal> ; f = classmethod(f) ; f = staticmethod(f)
+LeafKinds == {"assign", "oldcm", "oldsm", "docstr"}                  \* x = <literal> ; f = classmethod(f) ; f = staticmethod(f) ; a bare string
 AllKinds == DefKinds \cup ClassKinds \cup FlowKinds \cup LeafKinds
 Containers == DefKinds \cup ClassKinds \cup FlowKinds
 OnlyInClass == {"cm", "sm", "prop", "setter", "oldcm", "oldsm"}
@@ -59,7 +59,10 @@ Init == /\ n \in 1..MaxN
         /\ \A i \in 1..n : parent[i] # 0 => kind[parent[i]] \in Containers
         /\ \A i \in 1..n : kind[i] \in OnlyInClass => ScopeIsClass(i, parent, kind)
         \* flow blocks carry no name: normalise it so programs are not enumerated twice
-        /\ \A i \in 1..n : kind[i] \in FlowKinds => nm[i] = CHOOSE x \in Names : TRUE
+        /\ \A i \in 1..n : kind[i] \in FlowKinds \cup {"docstr"} => nm[i] = CHOOSE x \in Names : TRUE
+        \* a bare string as FIRST statement of a class / function body would be its docstring: not generated
+        /\ \A i \in 1..n : (kind[i] = "docstr" /\ parent[i] # 0 /\ kind[parent[i]] \in ClassKinds \cup DefKinds) =>
+                               \E j \in 1..(i - 1) : parent[j] = parent[i]
 Next == UNCHANGED vars
 Spec == Init /\ [][Next]_vars
 
@@ -69,7 +72,7 @@ InMain(i) == \E a \in Anc(i) \ {0} : kind[a] = "ifmain"
 InFunc(i) == \E a \in Anc(i) \ {0} : kind[a] \in DefKinds
 \* the statement is reached: by the interpreter on import, and by the builder's walk
 Runs(i) == ~InMain(i) /\ ~InFunc(i)
-NodesIn(s) == {i \in 1..n : Scope(i) = s /\ Runs(i) /\ kind[i] \notin FlowKinds}       \* binding statements of scope s
+NodesIn(s) == {i \in 1..n : Scope(i) = s /\ Runs(i) /\ kind[i] \notin FlowKinds \cup {"docstr"}}   \* binding statements of scope s
 SeqOfScope(s) == SetToSortSeq(NodesIn(s), LAMBDA a, b : a < b)                                            \* in source order
 
 \* ---------------------------------------------------------------- reference: PyExec
@@ -145,9 +148,43 @@ Table(which) == LET ss == SetToSortSeq(ScopesOf(which), LAMBDA a, b : a < b)
                                     ks == SetToSeq(DOMAIN ns)
                                 IN [j \in 1..Len(ks) |-> [name |-> ks[j], node |-> ns[ks[j]].node, kind |-> ns[ks[j]].kind]]]]
 
+\* ---------------------------------------------------------------- attribute docstrings
+\* Reference (PEP 224 / 258 convention pydoctor documents): a string literal IMMEDIATELY after a simple assignment, in the
+\* same block, documents that variable; if several assignments of the name are documented, the last one wins.
+RefDocOf(i) == IF i < n /\ kind[i + 1] = "docstr" /\ parent[i + 1] = parent[i] THEN i + 1 ELSE 0
+RefVarDoc(s, x) == LET ds == {RefDocOf(i) : i \in {j \in NodesIn(s) : kind[j] = "assign" /\ nm[j] = x}} \ {0}
+                   IN IF ds = {} THEN 0 ELSE CHOOSE d \in ds : \A e \in ds : e <= d
+\* Transcription: ASTBuilder.currentAttr.  Walk the statements in source order; `cur` is the (scope, name) of the attribute
+\* a following string would document.  addAttribute / _storeCurrentAttr set it, _push / _pop (entering and leaving a class
+\* or function) clear it, visit_Expr consumes it; flow statements (if/try/...) leave it alone.
+Pushes(k) == kind[k] \in ClassKinds \cup (DefKinds \ {"prop"})
+LeftBefore(k) == k > 1 /\ \E c \in (({k - 1} \cup Anc(k - 1)) \ ({0} \cup Anc(k))) : Runs(c) /\ Pushes(c)
+PdNSBefore(s, k) == PdFold(SelectSeq(SeqOfScope(s), LAMBDA j : j < k), 1, <<>>)
+\* does the assignment at k touch an Attribute object (new or existing)?  (otherwise it is ignored: the name is a function/class)
+SetsAttr(k) == LET ns == PdNSBefore(Scope(k), k) IN nm[k] \notin DOMAIN ns \/ ns[nm[k]].kind \in {"variable", "property"}
+RECURSIVE PdWalk(_, _, _)
+PdWalk(k, cur, docs) ==
+  IF k > n THEN docs
+  ELSE IF ~Runs(k) THEN PdWalk(k + 1, IF LeftBefore(k) THEN <<>> ELSE cur, docs)
+  ELSE LET c0 == IF LeftBefore(k) THEN <<>> ELSE cur IN
+    CASE Pushes(k) -> PdWalk(k + 1, <<>>, docs)
+      [] kind[k] = "prop" -> PdWalk(k + 1, <<Scope(k), nm[k]>>, docs)              \* _handlePropertyDef -> addAttribute
+      [] kind[k] = "assign" -> PdWalk(k + 1, IF SetsAttr(k) THEN <<Scope(k), nm[k]>> ELSE c0, docs)
+      [] kind[k] = "docstr" -> IF c0 = <<>> THEN PdWalk(k + 1, c0, docs)
+                               ELSE PdWalk(k + 1, <<>>, [d \in DOMAIN docs \cup {c0} |-> IF d = c0 THEN k ELSE docs[d]])
+      [] OTHER -> PdWalk(k + 1, c0, docs)
+PdDocs == PdWalk(1, <<>>, <<>>)
+PdVarDoc(s, x) == IF <<s, x>> \in DOMAIN PdDocs THEN PdDocs[<<s, x>>] ELSE 0
+DocTable(which) == LET ss == SetToSortSeq(ScopesOf(which), LAMBDA a, b : a < b)
+                   IN [k \in 1..Len(ss) |-> [scope |-> ss[k],
+                         docs |-> LET ns == IF which = "py" THEN PyNS(ss[k]) ELSE PdNS(ss[k])
+                                      vs == SetToSeq({x \in DOMAIN ns : ns[x].kind \in {"variable", "property"}})
+                                  IN [j \in 1..Len(vs) |-> [name |-> vs[j],
+                                         doc |-> IF which = "py" THEN RefVarDoc(ss[k], vs[j]) ELSE PdVarDoc(ss[k], vs[j])]]]]
+
 \* design level: the transcription agrees with the reference
 DocumentedIsPyExec == Importable => (ScopesOf("py") = ScopesOf("pd") /\ \A s \in ScopesOf("py") : PyNS(s) = PdNS(s))
 Emit == Importable => PrintT(ToJson([n |-> n, parent |-> parent, kind |-> kind, nm |-> nm,
-                                     py |-> Table("py"), pd |-> Table("pd"),
+                                     py |-> Table("py"), pd |-> Table("pd"), pydoc |-> DocTable("py"), pddoc |-> DocTable("pd"),
                                      agree |-> (ScopesOf("py") = ScopesOf("pd") /\ \A s \in ScopesOf("py") : PyNS(s) = PdNS(s))]))
 =============================================================================
